@@ -542,10 +542,40 @@ impl<'a> RunGen<'a> {
         RunDesc { idx, conns, actions, hash_seed: rng.next_u64() | 1 }
     }
 
+    /// Many clients that have started an upload and then sit there (headers
+    /// sent, body incomplete, connection open): whatever they hold — slots,
+    /// permits, workers — other clients must still be served.
+    fn gen_stalled_uploads(&self, rng: &mut Rng, idx: u64) -> RunDesc {
+        let k = *rng.pick(&[8usize, 9, 12, 16, 17, 33, 70]);
+        let mut conns = vec![];
+        let mut actions = vec![];
+        for c in 0..k {
+            let body = format!("+--+\n|{:>2}|\n+--+\n{}", c % 100, " \n".repeat(rng.urange(1, 40))).into_bytes();
+            let framing = if rng.chance(1, 4) { Framing::Chunked(vec![4, 4, 4]) } else { Framing::ContentLength };
+            let req = ReqSpec { method: "POST".into(), path: "/".into(), version: "1.1".into(), headers: vec![], body: BodySpec::Bytes(body), framing, raw: None };
+            let bytes = req.to_bytes();
+            let head = bytes.windows(4).position(|w| w == b"\r\n\r\n").map(|p| p + 4).unwrap_or(bytes.len());
+            // all of the head, some (not all) of the body
+            let sent = head + rng.usize_below((bytes.len() - head).max(1));
+            actions.push(Action::Open(c));
+            actions.push(Action::DrainAll(c));
+            actions.push(Action::Deliver(c, sent.min(bytes.len() - 1)));
+            conns.push(vec![req]);
+            if rng.chance(1, 10) {
+                actions.push(Action::Tick(rng.range(50, 400)));
+            }
+        }
+        actions.push(Action::Probe);
+        RunDesc { idx, conns, actions, hash_seed: rng.next_u64() | 1 }
+    }
+
     pub fn gen_run(&self, seed: u64, idx: u64) -> RunDesc {
         let mut rng = Rng::new(simcommon::mix(seed, "c20-run", idx));
         if rng.chance(1, 12) {
             return self.gen_soak(&mut rng, idx);
+        }
+        if rng.chance(1, 20) {
+            return self.gen_stalled_uploads(&mut rng, idx);
         }
         if rng.chance(1, 12) {
             return self.gen_twins(&mut rng, idx);
